@@ -2,6 +2,7 @@ INIT Init
 NEXT Next
 CONSTANTS
   Part = "eigen"
+  Flaws = {}
   Thorough = FALSE
 INVARIANT LawWellFormed
 INVARIANT LawGuard
